@@ -100,10 +100,16 @@ var (
 		{hB, 3, pB}, // B
 		{hA, 1, pC}, // same block hash, other part-set hash
 		{hA, 2, pA}, // same block hash and part-set hash, other part count
+		{hA, 1, lastByte(pA)},  // part-set hash differs in its last byte only
+		{hA, 1, firstByte(pA)}, // part-set hash differs in its first byte only
+		{lastByte(hA), 1, pA},  // block hash differs in its last byte only
 	}
-	palNames   = []string{"nil", "A", "B", "A/parts", "A/total"}
+	palNames   = []string{"nil", "A", "B", "A/parts", "A/total", "A/parts-last-byte", "A/parts-first-byte", "A/hash-last-byte"}
 	incomplete = []bidKey{{hA, 0, common.Hash{}}, {common.Hash{}, 1, pA}}
 )
+
+func lastByte(h common.Hash) common.Hash  { h[len(h)-1] ^= 0x01; return h }
+func firstByte(h common.Hash) common.Hash { h[0] ^= 0x80; return h }
 
 func palIndex(b bidKey) int {
 	for i, p := range palette {
@@ -1084,7 +1090,7 @@ func (r *run) mutateAndJudge(s *mset, good *types.Commit, X bidKey) {
 		t := tuple{chainID, kproto.PrecommitType, c.Height, c.Round, b, sec, 0}
 		return t, r.sign(r.keyOf[i], t)
 	}
-	other := func() bidKey { return palette[2+r.tape.Draw(3)] } // B, A/parts, A/total
+	other := func() bidKey { return palette[2+r.tape.Draw(6)] } // B, A/parts, A/total, near-collisions of A
 	label := ""
 	sigs := c.Signatures
 	kinds := []string{"absent-one", "trim", "resigned", "flip-signature", "swap", "duplicate-validator", "moved-signature",
@@ -1419,7 +1425,7 @@ func (r *run) drawBlock(i int, round uint32, ty kproto.SignedMsgType) (bidKey, i
 		}
 		return palette[pi], baseTime + int64(i%2)
 	}
-	pi := []int{1, 0, 2, 3, 4}[r.tape.Weighted(15, 6, 6, 3, r.g2w)]
+	pi := []int{1, 0, 2, 3, 4, 5, 6, 7}[r.tape.Weighted(15, 6, 6, 3, r.g2w, 2, 1, 1)]
 	return palette[pi], baseTime + int64(r.tape.Draw(3))
 }
 
@@ -1568,7 +1574,7 @@ func (r *run) voteEvent(distort bool) {
 
 func (r *run) claimEvent() {
 	peer := []string{"p0", "p1", "p2"}[r.tape.Draw(3)]
-	b := palette[[]int{1, 2, 0, 3, 4}[r.tape.Weighted(12, 9, 3, 3, r.g2w)]]
+	b := palette[[]int{1, 2, 0, 3, 4, 5, 6, 7}[r.tape.Weighted(12, 9, 3, 3, r.g2w, 2, 1, 1)]]
 	round, ty := r.drawTarget()
 	var err error
 	var s *mset
